@@ -58,3 +58,5 @@ let spec_case (line : string) : string =
            if (out = "C1") <> (a1 && a2) then "copy outcome does not match allocation outcome"
            else if ma <> mb then "copy differs from original" else "ok")
   | _ -> failwith "bad spec line"
+
+let engines = [ "map", run_case; "map-spec", spec_case ]
